@@ -154,4 +154,5 @@ def initial_config(cfgvals, present=True):
         "CfgA.flag": bool(v[2] % 2),
         "CfgB.k": v[3] % 5,
         "CfgB.t": (v[4] % 5) - 1,
+        "CfgA.b": (v[0] + v[3]) % 4,
     }
